@@ -1,8 +1,9 @@
 (* C17 -- myosin quantification is a normalised, linear window statistic of the image.  Statements only.
    Proved: window shape, distinctness of the band pixels, linearity of the integrated intensity, positive homogeneity of the window median
-   statistic, uniform images, 'average' normalisation and order.  PARTIAL: the polyline length (sqrt) and PIL's pixel access are oracles. *)
+   statistic, uniform images, 'average' normalisation and order.  The layered band is characterised for every interpolation rule and instantiated with numpy's.  PARTIAL: the polyline length (sqrt)
+   and PIL's pixel access are oracles. *)
 From Coq Require Import ZArith QArith List Bool.
-From Forsys Require Import Model.Myosin Proofs.MyosinProofs.
+From Forsys Require Import Model.Myosin Proofs.MyosinProofs Model.Band Proofs.BandProofs.
 Import ListNotations.
 
 Theorem C17_window_is_square : forall x y L,
@@ -36,6 +37,37 @@ Proof. vm_compute. reflexivity. Qed.
 Example C17_median_example : Qeq_bool (median [3; 9; 1; 7; 5]%Q) 5 = true.
 Proof. vm_compute. reflexivity. Qed.
 
+(* ---- the layered band around the interface polyline (myosin.py get_interpolation / walk_two_vertices, Model/Band.v) *)
+(* one walk position per integer step along the axis of larger extent ... *)
+Theorem C17_walk_positions_count : forall interp v0 v1,
+  length (walk_positions interp v0 v1) = Z.to_nat (Z.max (Z.abs (fst v0 - fst v1)) (Z.abs (snd v0 - snd v1))).
+Proof. exact walk_positions_count. Qed.
+(* ... from the first vertex (included) to the second (excluded), the other coordinate interpolated *)
+Theorem C17_walk_positions_major : forall interp v0 v1 p, In p (walk_positions interp v0 v1) ->
+  if (Z.abs (snd v0 - snd v1) <? Z.abs (fst v0 - fst v1))%Z
+  then ((fst v0 <= fst p < fst v1 \/ fst v1 < fst p <= fst v0) /\ snd p = interp (fst v0) (snd v0) (fst v1) (snd v1) (fst p))%Z
+  else ((snd v0 <= snd p < snd v1 \/ snd v1 < snd p <= snd v0) /\ fst p = interp (snd v0) (fst v0) (snd v1) (fst v1) (snd p))%Z.
+Proof. exact walk_positions_major. Qed.
+(* a pixel belongs to the band of a segment exactly when it is within [layers] of one of the segment's walk positions ... *)
+Theorem C17_walk_band_spec : forall interp layers v0 v1 q, In q (walk_band interp layers v0 v1) <->
+  exists p, In p (walk_positions interp v0 v1) /\ (Z.abs (fst q - fst p) <= Z.of_nat layers)%Z /\ (Z.abs (snd q - snd p) <= Z.of_nat layers)%Z.
+Proof. exact walk_band_spec. Qed.
+(* ... and to the band of the polyline exactly when it belongs to the band of one of its segments *)
+Theorem C17_polyline_band_spec : forall interp layers vs q, In q (polyline_band interp layers vs) <->
+  exists s, In s (segments vs) /\ In q (walk_band interp layers (fst s) (snd s)).
+Proof. exact polyline_band_spec. Qed.
+(* a segment that stays in one pixel contributes no pixel; any other contributes the whole window of its first vertex *)
+Theorem C17_degenerate_segment_empty : forall interp layers v, walk_band interp layers v v = [].
+Proof. exact degenerate_segment_empty. Qed.
+Theorem C17_first_vertex_window_in_band : forall layers v0 v1 q, v0 <> v1 ->
+  (Z.abs (fst q - fst v0) <= Z.of_nat layers)%Z -> (Z.abs (snd q - snd v0) <= Z.of_nat layers)%Z -> In q (walk_band np_interp layers v0 v1).
+Proof. exact first_vertex_window_in_band. Qed.
+
+(* a diagonal step and a flat one, one layer: 3 + 2 walk positions, 23 distinct pixels *)
+Example C17_band_example : length (band_of 1 [(0, 0); (3, 1); (3, 3)]%Z) = 23%nat /\
+  walk_positions np_interp (0, 0)%Z (3, 1)%Z = [(0, 0); (1, 0); (2, 0)]%Z /\ walk_positions np_interp (3, 1)%Z (3, 3)%Z = [(3, 1); (3, 2)]%Z.
+Proof. vm_compute. repeat split; reflexivity. Qed.
+
 Print Assumptions C17_window_is_square.
 Print Assumptions C17_band_pixels_distinct.
 Print Assumptions C17_average_normalisation_mean_one.
@@ -44,3 +76,9 @@ Print Assumptions C17_integrated_scale.
 Print Assumptions C17_integrated_add.
 Print Assumptions C17_non_integrated_scale.
 Print Assumptions C17_non_integrated_uniform.
+Print Assumptions C17_walk_positions_count.
+Print Assumptions C17_walk_positions_major.
+Print Assumptions C17_walk_band_spec.
+Print Assumptions C17_polyline_band_spec.
+Print Assumptions C17_degenerate_segment_empty.
+Print Assumptions C17_first_vertex_window_in_band.
